@@ -231,6 +231,10 @@ class FunTx:
                         and not any(isinstance(x, ast.Starred) for x in cargs[0].elts)):
                     cargs = cargs[0].elts        # min([a, b]) is min(a, b): same value, same first-extremal rule
                 return f"(EBuiltin {SIMPLE_BUILTINS[name]} {cexprs([self.e(a) for a in cargs])})"
+            if name == "next" and len(n.args) == 1 and not n.keywords and isinstance(n.args[0], ast.Call) \
+                    and isinstance(n.args[0].func, ast.Name) and n.args[0].func.id == "iter" and len(n.args[0].args) == 1 and not n.args[0].keywords:
+                # next(iter(X)) is list(X)[0] (first element / first key; both raise on an empty X)
+                return f"(ESub (EBuiltin BList {cexprs([self.e(n.args[0].args[0])])}) (EInt 0%Z))"
             if name == "isinstance":
                 if len(n.args) == 2 and ast.unparse(n.args[1]) == "int":
                     return f"(EBuiltin BIsInt {cexprs([self.e(n.args[0])])})"
